@@ -9,7 +9,8 @@ THMS_MUR = ["IsalVerif.GenProps.Murmur.all_canon", "IsalVerif.GenProps.Murmur.bo
             "IsalVerif.GenProps.Murmur.murtail_current", "IsalVerif.MurC.canon_block_step", "IsalVerif.MurC.canon_tail_arith",
             "IsalVerif.MurC.murmurTail_eq"]
 THMS_FIN = ["IsalVerif.GenProps.MhFin.all_canon", "IsalVerif.GenProps.MhFin.all_count", "IsalVerif.GenProps.MhFin.mhfin_current",
-            "IsalVerif.GenProps.MhFin.stitched_present", "IsalVerif.MhFinC.canon_fin", "IsalVerif.MhFinC.mur_reads_buffered"]
+            "IsalVerif.GenProps.MhFin.stitched_present", "IsalVerif.GenProps.MhFin.blockbase_current",
+            "IsalVerif.GenProps.MhFin.blockbase_present", "IsalVerif.MhFinC.canon_blockbase", "IsalVerif.MhFinC.canon_fin", "IsalVerif.MhFinC.mur_reads_buffered"]
 THMS = ["IsalVerif.GenProps.MhUpdate.all_canon", "IsalVerif.GenProps.MhUpdate.all_count", "IsalVerif.GenProps.MhUpdate.stitched_present",
         "IsalVerif.GenProps.MhUpdate.mhupdate_current", "IsalVerif.MhC.canon_mh_update", "IsalVerif.MhC.mhSpec_absorb",
         "IsalVerif.GenProps.MhUpdate.mhupdate_absorbs"]
